@@ -20,8 +20,9 @@ import numpy as np
 from .common import Harness, lean_driver, diff_streams, run_isolated
 
 
-def write_fits(path, data, crpix1, crpix2, scale, bottom_up, crval=(150.0, 20.0)):
-    """`data` is given top-down (row 0 = top of the sky image); crpix (1-based) refer to the top-down array"""
+def write_fits(path, data, crpix1, crpix2, scale, bottom_up, crval=(150.0, 20.0), rot=(1.0, 0.0)):
+    """`data` is given top-down (row 0 = top of the sky image); crpix (1-based) refer to the top-down array; `rot` = (cos, sin) of
+    the rotation of the shared projection (exact quarter turns have exact zeros in the matrix)"""
     from astropy.io import fits
     h = data.shape[0]
     hdr = fits.Header()
@@ -29,17 +30,21 @@ def write_fits(path, data, crpix1, crpix2, scale, bottom_up, crval=(150.0, 20.0)
     hdr["CTYPE2"] = "DEC--TAN"
     hdr["CRVAL1"] = crval[0]
     hdr["CRVAL2"] = crval[1]
-    hdr["CD1_1"] = -scale
-    hdr["CD1_2"] = 0.0
-    hdr["CD2_1"] = 0.0
+    c_, s_ = rot
+    # the matrix of the bottom-up (FITS-like) representation; storing the rows top-down negates its second column
+    b11, b12, b21, b22 = -scale * c_, scale * s_, scale * s_, scale * c_
+    hdr["CD1_1"] = b11
+    hdr["CD2_1"] = b21
     if bottom_up:
         arr = data[::-1].copy()
-        hdr["CD2_2"] = scale
+        hdr["CD1_2"] = b12
+        hdr["CD2_2"] = b22
         hdr["CRPIX1"] = float(crpix1)
         hdr["CRPIX2"] = float(h + 1 - crpix2)
     else:
         arr = data.copy()
-        hdr["CD2_2"] = -scale
+        hdr["CD1_2"] = -b12 if b12 != 0 else 0.0
+        hdr["CD2_2"] = -b22 if b22 != 0 else 0.0
         hdr["CRPIX1"] = float(crpix1)
         hdr["CRPIX2"] = float(crpix2)
     fits.PrimaryHDU(arr.astype(np.float32), header=hdr).writeto(path, overwrite=True)
@@ -73,6 +78,27 @@ def _run(paths, out_dir, fmt, parallel):
     astro = {k: (float(getattr(im, k)) if not isinstance(getattr(im, k), (bool, str)) else getattr(im, k))
              for k in ("center_x", "center_y", "rotation_deg", "offset_x", "offset_y", "base_degrees_per_tile", "tile_levels", "bottoms_up")}
     return {"rec": rec, "desc": desc, "inputs": inputs, "astro": astro, "levels": int(proc._tiling._tile_levels)}
+
+
+def _study_astro(path, out_dir):
+    """the astrometric description of ONE image tiled as a study (not through the multi-TAN code): parity made negative, the
+    study tiling's levels, `Builder.apply_wcs_info` on the image's own WCS"""
+    import toasty.par_util
+    toasty.par_util.SHOW_INFORMATIONAL_MESSAGES = False
+    from toasty import collection
+    from toasty.builder import Builder
+    from toasty.pyramid import PyramidIO
+    from toasty.study import StudyTiling
+    with warnings.catch_warnings():
+        warnings.simplefilter("ignore")
+        img = next(iter(collection.SimpleFitsCollection([path]).images()))
+        img.ensure_negative_parity()
+        bld = Builder(PyramidIO(out_dir, default_format="fits"))
+        StudyTiling(img.width, img.height).apply_to_imageset(bld.imgset)
+        bld.apply_wcs_info(img.wcs, img.width, img.height)
+    im = bld.imgset
+    return {k: (float(getattr(im, k)) if not isinstance(getattr(im, k), (bool, str)) else getattr(im, k))
+            for k in ("center_x", "center_y", "rotation_deg", "offset_x", "offset_y", "base_degrees_per_tile", "tile_levels", "bottoms_up")}
 
 
 def read_raw(path, fmt):
@@ -207,6 +233,10 @@ def main():
             rx, ry = rng.choice([(W // 2, H // 2), (-50, -20), (W + 30, 10), (0, 0)])
             storage = rng.choice(["top-down", "bottom-up", "mixed"])
             scale = rng.choice([1e-3, 2.5e-4])
+            rot_name, rot = rng.choice([("0", (1.0, 0.0)), ("90", (0.0, 1.0)), ("180", (-1.0, 0.0)), ("270", (0.0, -1.0)), ("30", (math.cos(math.radians(30)), math.sin(math.radians(30)))),
+                                        ("0", (1.0, 0.0))])
+            if ci == 0:
+                rot_name, rot = "90", (0.0, 1.0)
             fmt = rng.choice(["fits", "npy"])
             cdir = os.path.join(root, f"c{ci}")
             os.makedirs(cdir)
@@ -214,19 +244,23 @@ def main():
             for j, ((ox, oy, w, hh), d) in enumerate(zip(rects, subs)):
                 bu = storage == "bottom-up" or (storage == "mixed" and j % 2 == 1)
                 p = os.path.join(cdir, f"in{j}.fits")
-                write_fits(p, d, rx - ox + 1, ry - oy + 1, scale, bu)
+                write_fits(p, d, rx - ox + 1, ry - oy + 1, scale, bu, rot=rot)
                 paths.append(p)
             pe = os.path.join(cdir, "assembled.fits")
-            write_fits(pe, E, rx + 1, ry + 1, scale, storage == "bottom-up")
+            write_fits(pe, E, rx + 1, ry + 1, scale, storage == "bottom-up", rot=rot)
             levels, want = expected_tiles(E)
-            desc = f"{W}x{H} mosaic from {k} input(s) {rects} stored {storage}, reference pixel ({rx},{ry}), output {fmt}"
-            inp = {"W": W, "H": H, "rects": rects, "storage": storage, "ref": [rx, ry], "format": fmt}
+            desc = f"{W}x{H} mosaic from {k} input(s) {rects} stored {storage}, reference pixel ({rx},{ry}), projection rotated by {rot_name}°, output {fmt}"
+            inp = {"W": W, "H": H, "rects": rects, "storage": storage, "ref": [rx, ry], "format": fmt, "rotation": rot_name}
             # the assembled mosaic through the real code
             single_dir = os.path.join(cdir, "single")
             st, single = run_isolated(_run, ([pe], single_dir, fmt, 1), 300)
             if st != "ok":
                 h.violation("single:run", f"{desc}: tiling the assembled mosaic {st}: {single}", input=inp)
                 continue
+            st_s, study_astro = run_isolated(_study_astro, (pe, os.path.join(cdir, "study")), 120)
+            if st_s != "ok":
+                h.violation("study:run", f"{desc}: describing the assembled mosaic as a study {st_s}: {study_astro}", input=inp)
+                study_astro = None
             for par in ((1, 2) if strips else (1, 3)):
                 order = list(range(k))
                 if not strips:
@@ -285,6 +319,13 @@ def main():
                             sv = single["astro"][kk]
                             if (isinstance(v, float) and not math.isclose(v, sv, rel_tol=1e-12, abs_tol=1e-12)) or (not isinstance(v, float) and v != sv):
                                 bad = f"astrometric description differs from that of the assembled mosaic: {kk} = {v!r} vs {sv!r}"
+                                break
+                    if not bad and study_astro is not None:
+                        # ---- and against the description of the assembled mosaic tiled as a plain study (no multi-TAN code involved)
+                        for kk, v in res["astro"].items():
+                            sv = study_astro[kk]
+                            if (isinstance(v, float) and not math.isclose(v, sv, rel_tol=1e-9, abs_tol=1e-9)) or (not isinstance(v, float) and v != sv):
+                                bad = f"astrometric description differs from that of the assembled mosaic tiled as a study: {kk} = {v!r} vs {sv!r}"
                                 break
                 if bad:
                     h.violation(f"mosaic:{fmt}:{par}", f"{desc}, parallel={par}, input order {order}: {bad}", input={**inp, "order": order, "parallel": par}, observed=bad)
